@@ -53,6 +53,7 @@ type c23Obj struct {
 	whole  *c23T
 	zero   bool
 	typ    types.Type
+	pooled *c23T // non-nil: obtained from this pool (sync.Pool.Get), contents unknown
 }
 
 func (o *c23Obj) clone() *c23Obj {
@@ -80,7 +81,9 @@ type c23Event struct {
 	readNo int
 	full   bool
 	lenT   *c23T
+	res    *c23T // result term (copy)
 	depth  int
+	defer_ bool // executed by rundefers at function exit
 }
 
 type c23Cond struct {
@@ -96,6 +99,7 @@ type c23Frame struct {
 	pc          int
 	visits      map[*ssa.BasicBlock]int
 	call        *ssa.Call
+	defers      []c23Event
 }
 
 type c23State struct {
@@ -121,6 +125,7 @@ func (st *c23State) clone() *c23State {
 		for k, v := range f.visits {
 			nf.visits[k] = v
 		}
+		nf.defers = append([]c23Event{}, f.defers...)
 		c.stack = append(c.stack, &nf)
 	}
 	for k, o := range st.objs {
@@ -168,6 +173,9 @@ func (st *c23State) show(t *c23T) string {
 			}
 			if o.zero && len(o.elems) == 0 {
 				return "zero[" + st.show(o.lenT) + "]"
+			}
+			if o.pooled != nil {
+				return fmt.Sprintf("pooled#%d", o.id)
 			}
 			return fmt.Sprintf("buf#%d", o.id)
 		case "struct":
@@ -680,12 +688,72 @@ func (x *c23Exec) step(st *c23State, fr *c23Frame, in ssa.Instruction) bool {
 		}
 	case *ssa.Call:
 		return x.call(st, fr, i)
-	case *ssa.Defer, *ssa.Go:
-		ci := in.(ssa.CallInstruction)
-		cal := kit.CalleeOf(ci)
-		st.events = append(st.events, c23Event{kind: "call", in: in, callee: cal.String(), static: cal.Static, args: x.callArgs(st, fr, ci), depth: depth})
+	case *ssa.Go:
+		cal := kit.CalleeOf(i)
+		st.events = append(st.events, c23Event{kind: "go", in: in, callee: cal.String(), static: cal.Static, args: x.callArgs(st, fr, i), depth: depth})
+	case *ssa.Defer:
+		// arguments are evaluated now, the call runs at rundefers (LIFO)
+		cal := kit.CalleeOf(i)
+		args := x.callArgs(st, fr, i)
+		if mc, ok := i.Call.Value.(*ssa.MakeClosure); ok {
+			for _, b := range mc.Bindings {
+				args = append(args, x.term(st, fr, b))
+			}
+		}
+		fr.defers = append(fr.defers, c23Event{kind: "call", in: in, callee: cal.String(), static: cal.Static, args: args, depth: depth, defer_: true})
+	case *ssa.RunDefers:
+		for k := len(fr.defers) - 1; k >= 0; k-- {
+			st.events = append(st.events, fr.defers[k])
+		}
+		fr.defers = nil
+	case *ssa.Send:
+		st.events = append(st.events, c23Event{kind: "send", in: in, val: x.term(st, fr, i.X), obj: -1, depth: depth})
+	case *ssa.TypeAssert:
+		// a buffer taken from a sync.Pool: a distinct object whose contents are unknown and whose
+		// ownership ends when it is put back
+		xt := x.term(st, fr, i.X)
+		if xt.isCallOf("sync.Pool.Get") {
+			var ot *c23T
+			at := i.AssertedType
+			if pt, ok := at.Underlying().(*types.Pointer); ok {
+				if arr, ok := pt.Elem().Underlying().(*types.Array); ok {
+					ot = st.newObj("bytes", c23Int(arr.Len()), pt.Elem())
+				}
+			} else if _, ok := at.Underlying().(*types.Slice); ok {
+				ot = st.newObj("bytes", &c23T{op: "len", args: []*c23T{xt}}, at)
+			}
+			if ot != nil {
+				o := st.objs[int(ot.n)]
+				o.zero = false
+				o.pooled = xt
+				if _, isSlice := at.Underlying().(*types.Slice); isSlice {
+					ot = &c23T{op: "sl", args: []*c23T{ot, c23Int(0), nil}}
+				}
+				if i.CommaOk {
+					fr.vals[i] = &c23T{op: "tuple", args: []*c23T{ot, c23Const("true")}}
+				} else {
+					fr.vals[i] = ot
+				}
+			}
+		}
 	}
 	return true
+}
+
+// refsObj: term t mentions object id (as the object, a slice or an element address of it).
+func (st *c23State) refsObj(t *c23T, id int) bool {
+	if t == nil {
+		return false
+	}
+	if t.op == "obj" && int(t.n) == id {
+		return true
+	}
+	for _, a := range t.args {
+		if st.refsObj(a, id) {
+			return true
+		}
+	}
+	return false
 }
 
 func (x *c23Exec) callArgs(st *c23State, fr *c23Frame, c ssa.CallInstruction) []*c23T {
@@ -731,8 +799,20 @@ func (x *c23Exec) call(st *c23State, fr *c23Frame, c *ssa.Call) bool {
 			ev.obj, ev.idx = o.id, lo
 			o.zero = false
 		}
+		ev.lenT = st.lenTerm(args[0])
+		res := &c23T{op: "call", s: "copy", args: args}
+		// the number of bytes copied is min(len(dst), len(src)): folded when both are known
+		if d, ok1 := ev.lenT.intVal(); ok1 {
+			if n, ok2 := st.lenTerm(args[1]).intVal(); ok2 {
+				if n < d {
+					d = n
+				}
+				res = c23Int(d)
+			}
+		}
+		ev.res = res
 		st.events = append(st.events, ev)
-		fr.vals[c] = &c23T{op: "call", s: "copy", args: args}
+		fr.vals[c] = res
 		return true
 	case "append":
 		fr.vals[c] = &c23T{op: "call", s: "append", args: args}
